@@ -35,6 +35,15 @@ CLAIMED = {
             "as C02; 'every cell at the former maximum depth' is stated over refinable cells (fixed cells are never cut, C02); the 1% sliver "
             "exception of griddify is taken relative to the cell the piece was cut from; tie of a square cell may be halved along either side",
             "DESIGN.md 4 (C12)", ["Geometry", "AllocOps", "Alloc", "AllocMC", "AllocTrace"]),
+    "C03": ("TLA+ spec InitAlloc (die description x netlist x include-zero, Allocate = covered area / cell area) model-checked by TLC; "
+            "TLC-generated cases built as real Die+Netlist under 7 embeddings; create_initial_allocation's result trace-validated by TLC "
+            "(InitAllocTrace recomputes every ratio on the cells the real Die reported)",
+            "Every ratio, listing and ownership of the returned allocation is recomputed by TLC from corner coordinates for every enumerated "
+            "(die, netlist, option) and for random larger ones, on unrefined and split dies; the 'Hence' consequences are TLC invariants of the model.",
+            "bounded universe (2x2 die, <=1 region, <=2 movable modules from all lattice rectangles / squares; random dies to 12x12, <=4 modules); "
+            "7 embeddings; under inexact embeddings a module sharing an edge with a cell may be listed with ratio 0 (last-bit overlap); "
+            "completely blocked dies and dies/netlists rejected at load are outside",
+            "DESIGN.md 4 (C03)", ["Geometry", "DieOps", "AllocOps", "InitAlloc", "InitAllocTrace"]),
     "C11": ("TLA+ spec Die (split_refinable_regions as phase-1 step + one action per phase-2 iteration, initial_grid) model-checked by TLC; "
             "requests replayed on real Die objects under 7 embeddings; lists after every call trace-validated by TLC (DieTrace post-conditions)",
             "TLC checks count / parent+tag / per-parent tiling / aspect-ratio / untouched blockages+fixed as invariants of the modelled algorithm "
